@@ -233,7 +233,7 @@ func ruleReleaseCoverage(c *Ctx, rule string) {
 		guard := false
 		for _, f := range w.factsAt(r) {
 			if f.Op == "==" && f.Truth {
-				if e, ok := f.X.(*ssa.Extract); ok {
+				if e, ok := under(f.X).(*ssa.Extract); ok {
 					if _, isSel := e.Tuple.(*ssa.Select); isSel {
 						guard = true
 					}
@@ -800,7 +800,7 @@ func ruleCloseUnderLock(c *Ctx, rule string) {
 	cl := w.Func("allocation", "Allocation", "Close")
 	c.Anchor(rule, "close(a.closed)")
 	n := 0
-	w.eachInstr(cl, func(in ssa.Instruction) {
+	w.eachInstrDeep(cl, func(in ssa.Instruction) {
 		call, ok := in.(*ssa.Call)
 		if !ok {
 			return
@@ -972,21 +972,13 @@ func ruleCallbackPairing(c *Ctx, rule string) {
 				}
 				n++
 				c.Anchor(rule, k.name)
-				if fn != home {
+				if w.rootOf(fn) != home {
 					c.Bad(rule, fname(fn), k.name, w.instrPos(in), k.name+" is emitted outside "+k.fn+", the function that performs the change it reports")
 					return
 				}
 				if k.created {
 					// dominated by the insert into the table
-					dom := false
-					w.eachInstr(fn, func(in2 ssa.Instruction) {
-						if !tableWrite(w, in2, tbl) {
-							return
-						}
-						if in2.Block() == in.Block() && indexIn(in2) < indexIn(in) || (in2.Block() != in.Block() && in2.Block().Dominates(in.Block())) {
-							dom = true
-						}
-					})
+					dom := w.domHit(in, func(in2 ssa.Instruction) bool { return tableWrite(w, in2, tbl) })
 					if dom {
 						c.OK(rule, fname(fn), k.name, w.instrPos(in), "dominated by the insert into "+k.table)
 					} else {
